@@ -1,5 +1,5 @@
 (* C04/Proofs5.v — the statements of Properties.v that need a few lines of glue. *)
-From Verif Require Import Common.Base C04.Model C04.Proofs C04.Proofs2 C04.Proofs3 C04.Proofs4.
+From Verif Require Import Common.Base C04.Model C04.Proofs C04.Proofs2 C04.Proofs3 C04.Proofs4 C04.Proofs6 C04.Proofs7 C04.Harness.
 From Coq Require Import Permutation.
 Local Open Scope Z_scope.
 
@@ -61,6 +61,22 @@ Lemma oversized_remainder_refuted_l : exists w sz max a out q,
 Proof.
   exists w_unit, Bytes, 30, f5_req. eexists; eexists. split; [vm_compute; reflexivity|]. split; [left; reflexivity|].
   split; vm_compute; reflexivity.
+Qed.
+
+(* request 2 of foreign_evs reports an error although every batch holding one of its ids was exported successfully *)
+Lemma done_error_only_items_refuted_l :
+  let '(batches, fired) := model_bat 2 3 3 foreign_evs in
+  In (2, 1) fired /\
+  forall b ids, nth_error batches b = Some ids -> (exists x, In x ids /\ In x [3;4;5;6;7]) ->
+                ~ In (2, [Z.of_nat b], 1) foreign_evs.
+Proof.
+  rewrite foreign_error_witness. split; [cbn; auto|].
+  intros b ids Hb [x [Hx1 Hx2]] Hin.
+  destruct b as [|[|[|b]]]; cbn in Hb.
+  - injection Hb as <-. cbn in Hx1, Hx2. intuition (subst; discriminate).
+  - vm_compute in Hin. intuition discriminate.
+  - vm_compute in Hin. intuition discriminate.
+  - destruct b; discriminate Hb.
 Qed.
 
 Section Batcher.
